@@ -251,6 +251,25 @@ def observe(model, viol, site, probes, extra_tree):
             if got_sub != direct or repr(got_sub) != repr(direct) or got_sub.entries() != direct.entries() or got_sub.namespace != direct.namespace or \
                     list(got_sub.unflatten([1, 2, 3])) != list(direct.unflatten([1, 2, 3])):
                 viol('order-mismatch', site, 'sub-treespec %r of a dict-bearing treespec differs from flattening the child directly %r (namespace %r, mode %s)' % (got_sub, direct, ns, want_eff))
+        # none_is_leaf does not change the order, and tree_transpose re-flattens with the recorded namespace
+        dn = {'b': None, 'a': 1, 'c': None}
+        for nil in (False, True):
+            lv = optree.tree_leaves(dn, none_is_leaf=nil, namespace=ns)
+            order = ['b', 'a', 'c'] if want_eff else ['a', 'b', 'c']
+            want_lv = [dn[k] for k in order if nil or dn[k] is not None]
+            if lv != want_lv:
+                viol('order-mismatch', site, 'tree_leaves(none_is_leaf=%s) in namespace %r under mode %s gives %r, expected %r' % (nil, ns, want_eff, lv, want_lv))
+        try:
+            outer_t = {'b': 1, 'a': 2}
+            tr = optree.tree_transpose(optree.tree_structure(outer_t, namespace=ns), optree.tree_structure((0, 0), namespace=ns),
+                                       {'b': (10, 11), 'a': (20, 21)})
+            if tr != ({'b': 10, 'a': 20}, {'b': 11, 'a': 21}):
+                viol('pairing', site, 'tree_transpose under mode %s in namespace %r gives %r' % (want_eff, ns, tr))
+            tm = optree.tree_transpose_map(lambda x: (x, -x), outer_t, namespace=ns)
+            if tm != ({'b': 1, 'a': 2}, {'b': -1, 'a': -2}):
+                viol('pairing', site, 'tree_transpose_map under mode %s in namespace %r gives %r' % (want_eff, ns, tm))
+        except Exception as e:  # noqa: BLE001
+            viol('pairing', site, 'tree_transpose(_map) raised %s: %s (namespace %r, mode %s)' % (type(e).__name__, e, ns, want_eff))
         # nested dicts below the root follow the mode too
         nested = [{'b': 1, 'a': 2}, ({'d': 3, 'c': 4},), U.NT1({'f': 5, 'e': 6}, None)]
         nl = optree.tree_leaves(nested, namespace=ns)
